@@ -102,7 +102,7 @@ def gen_ops(rng, spec, n):
         if r < 0.55:
             ops.append(("iter", rng.choice(HOSTS)))
         elif r < 0.8:
-            c = rng.choice(["clean", "clean-now", "clean-cancel", "sync", "verify", "fsync", "fclean", "fstate", "deactivate", "activate", "scan", "import", "init", "modify-group"])
+            c = rng.choice(["clean", "clean-now", "clean-cancel", "sync", "verify", "fsync", "fclean", "fstate", "deactivate", "activate", "scan", "import", "init", "modify-group", "fmodify"])
             node, group, path = rng.choice(nodes), rng.choice(groups), rng.choice(paths)
             if c == "clean":
                 ops.append(("cli", "node clean", [node, "--force", "--archive-ok"]))
@@ -130,6 +130,9 @@ def gen_ops(rng, spec, n):
                 ops.append(("cli", "file import", [rng.choice(paths + ["acq1/brandnew"]), node, "--register-new"]))
             elif c == "init":
                 ops.append(("cli", "node init", [node]))
+            elif c == "fmodify":
+                # the operator corrects the registered size or digest of a file
+                ops.append(("cli", "file modify", [path, rng.choice(["--size=4096", "--size=0", "--md5=" + "ab" * 16, "--md5=D41D8CD98F00B204E9800998ECF8427E"])] + (["--no-reverify"] if rng.random() < 0.2 else [])))
             else:
                 ops.append(("cli", "node modify", [node, f"--group={group}"]))
         elif r < 0.93:
@@ -150,7 +153,17 @@ def apply_op(sim, mon, op, ctx=None):
         w.config.config["base"]["hostname"] = "operator"
         sim.step_no += 1
         sim.just_completed = set()
+        pre_taint = set()
+        if cmd == "file modify":
+            # file modify re-verifies the copies that are present and not released; with --no-reverify none.  The copies it does not
+            # send back to verification are recorded against metadata the operator has just replaced: an operator override
+            acq_, _, name_ = args[0].partition("/")
+            for c in w.ArchiveFileCopy.select().join(w.ArchiveFile).join(w.ArchiveAcq).where(w.ArchiveAcq.name == acq_, w.ArchiveFile.name == name_):
+                if "--no-reverify" in args or c.wants_file == "N":
+                    pre_taint.add((c.node.name, args[0]))
         code, out, exc = cw.invoke(cmd, list(args), input_="y\n")
+        if code == 0:
+            sim.tainted |= pre_taint
         if cmd in ("file state",) and code == 0:
             # an operator override: the copy no longer has to agree with storage
             sim.tainted.add((args[1], args[0]))
@@ -172,6 +185,13 @@ def apply_op(sim, mon, op, ctx=None):
                 data = p.read_bytes()
                 tmp = p.with_name(p.name + ".harness-tmp")
                 daemon._real["builtins.open"](tmp, "wb").write((data[:-1] + b"~") if data else b"~")
+                daemon._real.get("replace", os.replace)(tmp, p)
+        elif what == "repair":
+            # the operator puts the right bytes back by hand
+            good = next((data for (f, data) in sim.files if f"{f.acq.name}/{f.name}" == rel), None)
+            if good is not None and p.parent.is_dir():
+                tmp = p.with_name(p.name + ".harness-tmp")
+                daemon._real["builtins.open"](tmp, "wb").write(good)
                 daemon._real.get("replace", os.replace)(tmp, p)
         elif what in ("plant", "plant-new"):
             q = p if what == "plant" else p.with_name(p.name + ".extra")
